@@ -25,6 +25,16 @@ What is proved, what is not.
 * `never_displaced_*`: the last sentence, for every arrival.
 * `switches_to_longer_valid_branch` (= the first sentence at the moment the chain processor looks at a
   branch top): a stored, executable, strictly higher branch forking at or above the LIB *is* switched to.
+* `arrival_triggers_switch`, `arrival_keeps_when_not_longer` (arrival level: WHICH arrival triggers the
+  reorganisation, and to WHICH block): stated against `Parked`, a specification of "what is parked under
+  the arriving block" in terms of the orphan pool alone; the arriving block together with the chain parked
+  under it is stored, and the end of that chain — not the arriving block — is what the node switches to,
+  iff it is strictly higher than the best block.
+* `fork_choice_over_histories`: after ANY history of arrivals of valid blocks (any order, children before
+  parents, any number of branches, duplicates, any pool capacity) no stored block is higher than the best
+  block and every stored block sits on a fully stored valid branch: the best block is the tip of a longest
+  fully stored valid branch, whatever the order of arrival was. (With invalid blocks in the history this is
+  false for the pinned code: `valid_prefix_not_adopted`.)
 * NOT a theorem, and false for the pinned code: "after every arrival no strictly longer valid stored
   branch above the LIB is left unadopted" (`no_better_branch` of DESIGN §4). The chain processor calls
   `reorg` only for the *last* block of the arrival's orphan chain; when that last block (or one below
@@ -34,7 +44,8 @@ What is proved, what is not.
   exactly that history shape). `no_better_branch_partial` is the statement under the guard that
   excludes it: the branch considered is the one `reorg` is called for.
 -/
-import Aergo.Lemmas.Chain
+import Aergo.Lemmas.ChainHistory
+import Aergo.Lemmas.ChainLaw
 
 namespace Aergo.Props.C07
 open Aergo.Chain
@@ -150,6 +161,13 @@ theorem never_displaced_by_shorter (hE : ExecLaw exec txsOf) (N : Node) (b : Blo
     N.latest < (addBlock exec N b).2.latest :=
   addBlock_grew hE h hb
 
+/-- The same for a block of the node's own block factory (own-block path of `ChainService.addBlock`). -/
+theorem never_displaced_by_shorter_own (hE : ExecLaw exec txsOf) (N : Node) (b : Block)
+    (h : Inv exec txsOf U g N) (hb : U b.id = some b) :
+    ((addOwn exec N b).2.best = N.best ∧ (addOwn exec N b).2.latest = N.latest) ∨
+    N.latest < (addOwn exec N b).2.latest :=
+  addOwn_grew hE h hb
+
 /-- **A branch forking below the last irreversible block never displaces the main chain**: the reorganisation is vetoed
 and nothing at all changes. -/
 theorem never_displaced_below_lib (N : Node) (top : Block) (gt : Gather) (hg : gather N top = some gt)
@@ -219,6 +237,71 @@ theorem no_better_branch_partial (hU : UKeyed U) (N : Node) (top : Block) (gt : 
   · rintro ⟨hl, hea, hc⟩
     exact reorg_complete hg hl hgt hea hc
 
+/-- **Which arrival triggers the reorganisation, and to which block.** `S` is a main-chain block below the tip and not
+below the last irreversible height; `pre ++ b :: chain` is a parent-linked chain of consecutive heights starting right
+above `S`, of which `pre` is already stored off the main chain, `b` is the arriving block (honest identifier, not stored,
+not known as errored with this content, configured fork version, block signature accepted) and `chain` is exactly what is parked under `b` in the
+orphan pool (`Parked`: follow the slot keyed by the last block's identifier while the numbers fit). If none of these
+blocks is the main-chain block of its height, the chain executes block by block from `S`'s state root with the consensus
+accepting every block, and its LAST block `top` is strictly higher than the best block, then THIS arrival makes `top`
+the best block: answer `ok`, state root `top`'s, database consistent. (Calling `reorg` for the arriving block instead of
+the end of the parked chain — the seeded change C07-1 — violates this statement as soon as `chain ≠ []`.) -/
+theorem arrival_triggers_switch (hE : ExecLaw exec txsOf) (hU : UKeyed U) (N : Node) (h : Inv exec txsOf U g N)
+    (S b top : Block) (pre chain : List Block)
+    (hS : onMain N S) (hSlt : S.no < N.latest) (hlib : N.lib ≤ S.no)
+    (hasc : Asc S (pre ++ b :: chain)) (hpre : ∀ x ∈ pre, N.blocks x.id = some x)
+    (hbU : U b.id = some b) (hnew : N.blocks b.id = none) (hnb : (b.id, b) ∉ N.bad) (hver : b.verBad = false) (hsig : b.sigBad = false)
+    (hpark : Parked N.orphans b chain) (hoff : ∀ x ∈ pre ++ b :: chain, N.byNo x.no ≠ some x.id)
+    (htop : (b :: chain).getLastD b = top) (hgt : N.latest < top.no)
+    (hea : ExecAsc exec S (pre ++ b :: chain)) (hc : ∀ x ∈ pre ++ b :: chain, x.consOk = true) :
+    (addBlock exec N b).1 = .ok ∧ (addBlock exec N b).2.best = top ∧ (addBlock exec N b).2.sdbRoot = top.claimed ∧
+    (addBlock exec N b).2.latest = top.no ∧ Inv exec txsOf U g (addBlock exec N b).2 :=
+  addBlock_switches hE hU h hS hSlt hlib hasc hpre hbU hnew hnb hver hsig hpark hoff htop hgt hea hc
+
+/-- **… and an arrival whose parked chain does not end strictly higher than the best block displaces nothing**: the
+arriving side-branch block and the chain parked under it are stored, the best block, the height index and the state root
+are what they were (no validity needed). -/
+theorem arrival_keeps_when_not_longer (hU : UKeyed U) (N : Node) (h : Inv exec txsOf U g N)
+    (b prev top : Block) (chain : List Block)
+    (hprev : N.blocks b.parent = some prev) (hpno : prev.no + 1 = b.no)
+    (hnotbest : b.parent ≠ N.best.id ∨ b.no ≠ N.latest + 1)
+    (hbU : U b.id = some b) (hnew : N.blocks b.id = none) (hnb : (b.id, b) ∉ N.bad) (hver : b.verBad = false) (hsig : b.sigBad = false)
+    (hpark : Parked N.orphans b chain) (htop : (b :: chain).getLastD b = top) (hle : top.no ≤ N.latest) :
+    (addBlock exec N b).1 = .ok ∧ (addBlock exec N b).2.best = N.best ∧ (addBlock exec N b).2.latest = N.latest ∧
+    (addBlock exec N b).2.byNo = N.byNo ∧ (addBlock exec N b).2.sdbRoot = N.sdbRoot ∧
+    (∀ x ∈ b :: chain, (addBlock exec N b).2.blocks x.id = some x) :=
+  addBlock_side_kept hU h hprev hpno hnotbest hbU hnew hnb hver hsig hpark htop hle
+
+/-- **Fork choice over histories.** Let every block that ever arrives be valid in the universe `U` (`ValidIn`: honest
+identifier, configured fork version, signature and block accepted by the consensus, numbered right after the block of `U` its parent hash
+names and executing on that block's state root to the root it claims). Then after ANY history of arrivals on a fresh node
+— any order (children before parents, branches interleaved), duplicates, any number of competing branches, any capacity
+of the orphan pool — with the last irreversible height at 0:
+* the chain database is consistent (`Inv`: the best block is the tip of a stored parent-linked path to genesis that was
+  executed block by block, …),
+* **no stored block is higher than the best block**, and
+* every stored block other than genesis is valid and its parent is stored (so every stored block lies on a fully stored
+  valid branch down to genesis).
+Hence the best block is the tip of a longest fully stored valid branch: whenever an arrival completes a branch longer
+than the main chain, that very arrival switched to it. -/
+theorem fork_choice_over_histories (hE : ExecLaw exec txsOf) (hU : UKeyed U) (hg0 : g.no = 0) (hgU : U g.id = some g)
+    (oc bc : Nat) (bs : List Block) (hv : ∀ b ∈ bs, ValidIn exec U b) :
+    let N := bs.foldl (fun N b => (addBlock exec N b).2) (genesis g oc bc)
+    Inv exec txsOf U g N ∧ N.blocks N.best.id = some N.best ∧
+    (∀ i x, N.blocks i = some x → x.no ≤ N.best.no) ∧
+    (∀ i x, N.blocks i = some x → x = g ∨ (ValidIn exec U x ∧ ∃ p, N.blocks x.parent = some p)) := by
+  have key : ∀ (bs : List Block) (N : Node), Good exec txsOf U g N → (∀ b ∈ bs, ValidIn exec U b) →
+      Good exec txsOf U g (bs.foldl (fun N b => (addBlock exec N b).2) N) := by
+    intro bs
+    induction bs with
+    | nil => intro N h _; exact h
+    | cons b bs ih =>
+      intro N h hb
+      exact ih _ (Good.addBlock hE hU h (hb b (by simp))) (fun x hx => hb x (by simp [hx]))
+  have hI0 : Inv exec txsOf U g (genesis g oc bc) := Inv.init hg0 hgU oc bc
+  have hG := key bs _ (Good.init hg0 hI0) hv
+  exact ⟨hG.inv, hG.inv.best_main.2, fun i x hx => by rw [hG.inv.best_no]; exact hG.le i x hx, hG.stored⟩
+
 /-! ## Tests on sample values -/
 
 section samples
@@ -259,6 +342,34 @@ theorem valid_prefix_not_adopted :
     (addBlock tableExec N B2).1 = .cached ∧
     -- … while the same two blocks delivered without the invalid orphan are adopted:
     (run [A1, B1, B2]).best.id = 5 := by decide
+
+/-- Test: the hypotheses of `fork_choice_over_histories` are satisfiable on a non-trivial universe (two branches, shared
+and conflicting transactions): `ExecLaw` for the table of the six sample blocks, identifiers keyed, every block valid. -/
+def tbl : List Block := [G, A1, A2, B1, B2, B3]
+example : ExecLaw (execOn tbl) (look (lawGhost tbl)) ∧ UKeyed (tableU tbl) ∧
+    ∀ b ∈ [A1, A2, B1, B2, B3], ValidIn (execOn tbl) (tableU tbl) b := by
+  refine ⟨lawOk_sound tbl (by decide), tableU_keyed tbl, ?_⟩
+  intro b hb
+  simp only [List.mem_cons, List.not_mem_nil, or_false] at hb
+  rcases hb with rfl | rfl | rfl | rfl | rfl
+  · exact ⟨rfl, rfl, rfl, rfl, G, rfl, rfl, rfl⟩
+  · exact ⟨rfl, rfl, rfl, rfl, A1, rfl, rfl, rfl⟩
+  · exact ⟨rfl, rfl, rfl, rfl, G, rfl, rfl, rfl⟩
+  · exact ⟨rfl, rfl, rfl, rfl, B1, rfl, rfl, rfl⟩
+  · exact ⟨rfl, rfl, rfl, rfl, B2, rfl, rfl, rfl⟩
+
+/-- Test: … and its conclusion on two arrival orders of these blocks (children first; branches interleaved, with a
+duplicate): the best block is `B3`, the highest stored block, in both. -/
+example :
+    (run [B3, A2, B2, A1, B1]).best.id = 7 ∧ (run [A1, B1, B1, A2, B2, B3]).best.id = 7 ∧
+    (run [B3, A2, B2, A1, B1]).latest = 3 := by decide
+
+/-- Test: the hypotheses of `arrival_triggers_switch` on sample values: main chain `A1 A2`, `B1` stored, `B3` parked under
+`B2`; the arrival of `B2` (not `B3`, and no later arrival) makes `B3` the best block. -/
+example :
+    let N := run [A1, A2, B1, B3]
+    Parked N.orphans B2 [B3] ∧ N.latest = 2 ∧ (addBlock tableExec N B2).2.best.id = 7 := by
+  refine ⟨Parked.step (p := 5) (by decide) (by decide) (Parked.done (by decide)), by decide, by decide⟩
 
 end samples
 
